@@ -424,6 +424,22 @@ func (g G) planFlows(prop string) *Plan {
 		o.faultPcts = []int{0, 0, 10, 25} // a failing key read must never let an unsigned Success assertion out
 	}
 	p := g.planMix(prop, o)
+	if o.wTear > 0 {
+		// a rotation that was caught half-way completes a few steps later: most of the run happens outside that window
+		var out []Step
+		due := -1
+		for i, st := range p.Steps {
+			out = append(out, st)
+			if st.K == "mutate" && st.Mut == "tearKey" && due < 0 {
+				due = i + g.rng(fmt.Sprintf("tear%d.len", i), 2, 6)
+			}
+			if due >= 0 && i >= due {
+				out = append(out, Step{K: "mutate", Mut: "rotateKey"})
+				due = -1
+			}
+		}
+		p.Steps = out
+	}
 	g.aimAtCertExpiry(p, 7)
 	return p
 }
